@@ -45,7 +45,7 @@ def PT.prec : PT → Nat
 
 def parens (ts : List PTok) : List PTok := .punct "(" :: ts ++ [.punct ")"]
 
-/-- the printed operand `ts` of tree `t` in a position that admits levels ≤ `k` -/
+/-- the printed operand `ts` of tree `t` in a position that allows levels ≤ `k` -/
 def atLvl (k : Nat) (t : PT) (ts : List PTok) : List PTok := if t.prec ≤ k then ts else parens ts
 
 def unparse : PT → List PTok
